@@ -400,11 +400,13 @@ func c14Janitor(r *Run, rep *core.Report) {
 			if !ok {
 				return
 			}
+			n++
 			mc, ok := g.Common().Value.(*ssa.MakeClosure)
 			if !ok {
+				// goroutine started as a function call: arguments are passed by value, nothing is shared by reference
+				rep.Pass("C14.A6", fn(ctor)+" goroutine arguments", r.P.InstrPos(in), "the janitor is started with arguments passed by value; no variable is shared with the constructor")
 				return
 			}
-			n++
 			cl := mc.Fn.(*ssa.Function)
 			for bi, b := range mc.Bindings {
 				al, ok := b.(*ssa.Alloc)
